@@ -65,13 +65,18 @@ def run(m: Model, r: Report, tier: str) -> None:
     v2 = m.require_class(f"{LOG}._PenlogRecordV2")
     pj = m.require_function(f"{LOG}.PenlogRecord.parse_json")
     wfields = set(v2.class_annots)
-    rkeys = {n.slice.value for n in ast.walk(pj.node) if isinstance(n, ast.Subscript) and isinstance(n.slice, ast.Constant) and ast.unparse(n.value) == "record"}
+    recs = {n.targets[0].id for n in walk_no_nested(pj.node) if isinstance(n, ast.Assign) and isinstance(n.targets[0], ast.Name)
+            and isinstance(n.value, ast.Call) and ast.unparse(n.value.func) == "json.loads"}
+    if len(recs) != 1:
+        raise AnalysisError(f"{pj.qualname}: the decoded JSON record variable was not found ({sorted(recs)})")
+    REC = recs.pop()
+    rkeys = {n.slice.value for n in ast.walk(pj.node) if isinstance(n, ast.Subscript) and isinstance(n.slice, ast.Constant) and ast.unparse(n.value) == REC}
     r.check(rkeys == wfields, "R1", f"{pj.qualname}#keys", f"reader parses {sorted(rkeys)}, writer emits {sorted(wfields)}: "
             f"missing {sorted(wfields - rkeys)}, unknown {sorted(rkeys - wfields)}", loc=pj.loc)
     pr = m.require_class(f"{LOG}.PenlogRecord")
     ctor = [n for n in ast.walk(pj.node) if isinstance(n, ast.Call) and ast.unparse(n.func) == "cls"]
     kw = {k.arg: ast.unparse(k.value) for k in ctor[0].keywords} if ctor else {}
-    bad = [k for k, v in kw.items() if f"record['{k}']" not in v]
+    bad = [k for k, v in kw.items() if f"{REC}['{k}']" not in v]
     r.check(bool(kw) and not bad and set(kw) <= set(pr.class_annots), "R1", f"{pj.qualname}#field-binding",
             f"fields not bound to the key of the same name: {bad}", loc=pj.loc)
 
@@ -129,7 +134,7 @@ def run(m: Model, r: Report, tier: str) -> None:
     sj = ast.unparse(pj.node)
     r.check("data[data.index(b'>') + 1:]" in sj and "data.startswith(b'<')" in sj, "R3", f"{pj.qualname}#prefix-strip", "parse_json must strip exactly the prefix", loc=pj.loc)
     cp = m.require_function(f"{LOG}.PenlogReader.current_priority")
-    r.check("parse_priority(self._current_line)" in ast.unparse(cp.node) and "prio is None" in ast.unparse(cp.node) and ".priority" in ast.unparse(cp.node),
+    r.check("parse_priority(self._current_line)" in ast.unparse(cp.node) and m.has(cp, "prio is None") and ".priority" in ast.unparse(cp.node),
             "R3", f"{cp.qualname}#fallback", "without prefix the priority must be taken from the JSON record", loc=cp.loc)
 
     # ---------------------------------------------------------------- R4
